@@ -4,8 +4,6 @@ import (
 	"fmt"
 	"strings"
 
-	"github.com/antchfx/xpath"
-
 	"verif/internal/xdoc"
 	"verif/internal/xgen"
 	"verif/internal/xref"
@@ -37,7 +35,7 @@ func init() {
 }
 
 func (c *Case) c15Exec(src string, d *xdoc.Doc, ctx *xdoc.Node) {
-	ce, err := xpath.Compile(src)
+	ce, err := safeCompile(src)
 	c.Rep.Evals++
 	if err != nil || ce == nil {
 		c.Count("rejected")
@@ -164,7 +162,7 @@ func c17Damage(c *Case) {
 	e := anyExpr(g, env)
 	toks := xref.Tokens(e)
 	src := xref.Join(toks, "std", nil)
-	if _, err := xpath.Compile(src); err != nil {
+	if _, err := safeCompile(src); err != nil {
 		c.Skip("valid expression rejected by Compile (the business of other properties)")
 		return
 	}
@@ -176,7 +174,7 @@ func c17Damage(c *Case) {
 			c.Skip("damaged text is still a valid expression for the reference")
 			return true
 		}
-		ce, err := xpath.Compile(dam)
+		ce, err := safeCompile(dam)
 		c.Rep.Evals++
 		c.Count("damage:" + class)
 		c.Nontrivial(dam)
